@@ -5,6 +5,7 @@ that stays silent, every other check named in --also), reverts /repo.  Results g
 seeded/<id>/result.json.   usage: tools/seeded_eval.py [id ...]"""
 import json, os, subprocess, sys, time
 ROOT = os.path.dirname(os.path.dirname(os.path.abspath(__file__)))
+REPO = os.environ.get("SEED_REPO", "/repo")   # a scratch clone can be used so that /repo stays free for other work
 
 def sh(cmd, **kw):
     return subprocess.run(cmd, stdout=subprocess.PIPE, stderr=subprocess.STDOUT, text=True, **kw)
@@ -14,15 +15,15 @@ def main():
     for sid in ids:
         d = os.path.join(ROOT, "seeded", sid)
         meta = json.load(open(os.path.join(d, "meta.json")))
-        if sh(["git", "-C", "/repo", "status", "--porcelain", "--untracked-files=no"]).stdout.strip():
+        if sh(["git", "-C", REPO, "status", "--porcelain", "--untracked-files=no"]).stdout.strip():
             print("refusing: /repo has uncommitted changes"); sys.exit(2)
-        r = sh(["git", "-C", "/repo", "apply", os.path.join(d, "patch.diff")])
+        r = sh(["git", "-C", REPO, "apply", os.path.join(d, "patch.diff")])
         if r.returncode != 0:
             print(sid, "patch does not apply:", r.stdout[:300]); continue
         results = []
         try:
             for prop in [meta["property"]] + meta.get("also_try", []):
-                env = dict(os.environ, VERIF_EVIDENCE_DIR="/var/tmp/lsim-seeded-evidence", VERIF_BUDGET_S=os.environ.get("SEED_BUDGET_S", "45"))
+                env = dict(os.environ, VERIF_REPO=REPO, VERIF_BUILD_SUFFIX=("-seed" if REPO != "/repo" else ""), VERIF_EVIDENCE_DIR="/var/tmp/lsim-seeded-evidence", VERIF_BUDGET_S=os.environ.get("SEED_BUDGET_S", "45"))
                 t0 = time.time()
                 c = sh([os.path.join(ROOT, "bin", "verify"), prop, os.environ.get("SEED_TIER", "quick")], env=env)
                 viol = [l for l in c.stdout.splitlines() if l.startswith("VIOLATION")]
@@ -32,7 +33,7 @@ def main():
                 if results[-1]["caught"]:
                     break
         finally:
-            sh(["git", "-C", "/repo", "checkout", "--", "."])
+            sh(["git", "-C", REPO, "checkout", "--", "."])
         json.dump({"id": sid, "results": results, "caught_by": [r["check"] for r in results if r["caught"]]}, open(os.path.join(d, "result.json"), "w"), indent=1)
 
 if __name__ == "__main__":
